@@ -13,9 +13,20 @@ PROFILES = {
     "C02": ("c02", 350, 6000),
     "C03": ("c03", 700, 10000),
     "C06": ("c06", 220, 4000),
+    "C08": ("c08", 600, 12000),
 }
 
+TRACE_MODULE = {"C08": "EncodingTrace"}
+
 RULES = {
+    "C08": "seeded rule sets mixing a literal expression, single-wildcard, free-wildcard and all-wildcard "
+           "expressions for the same base path, each rule with a random allow_encoded_slashes setting (unset, "
+           "off, on, no_decode) and optional path_params, with and without default rule, decision and proxy mode; "
+           "request paths = the base path and variants with segments containing an encoded slash or a reserved "
+           "octet; every path is sent in 5 spellings (normal form, everything encoded in lower-case hex, three "
+           "random encodings of unreserved octets with random hex case); observed: status, matched rule, captures "
+           "seen by a finalizer, path received by the upstream; non-trivial = the spelling contains at least one "
+           "percent-encoded octet; distinct = by (history, request)",
     "C02": "seeded random rule sets (1-3 sets of 1-4 rules over a per-history alphabet of 2-3 literals incl. byte-prefix "
            "related and escaped ones, single and free wildcards, named and unnamed, trailing slashes; method "
            "conditions; backtracking flags) loaded in random order into a fresh assembled decision service; probes "
@@ -53,9 +64,9 @@ def design_run(work, verdict):
     }
 
 
-def judge(work, trace, tag=""):
+def _judge(work, trace, tag="", module="RuleIndexTrace"):
     out = work.path("verdict%s.json" % tag)
-    r = tlc_expect_ok(work, "RuleIndexTrace", "RuleIndexTrace.cfg",
+    r = tlc_expect_ok(work, module, module + ".cfg",
                       env={"VERIF_TRACE": trace, "VERIF_OUT": out}, workers=1, timeout=3000, heap="10g")
     v = json.load(open(out))
     v["tlc_states"] = r.distinct
@@ -71,7 +82,11 @@ def locate(lines, bad):
     out = set()
     for b in bad:
         out.add((b["trace"], b["line"] - 1 - starts[b["trace"]], b["why"]))
+        EXPECTED[(b["trace"], b["line"] - 1 - starts[b["trace"]])] = b.get("exp", [])
     return out
+
+
+EXPECTED = {}
 
 
 def block(lines, trace_id):
@@ -81,12 +96,46 @@ def block(lines, trace_id):
 def facts_of(block_lines, offset, why):
     ev = block_lines[offset]
     f = {"reason": why, "ev": ev["ev"], "kind": ev.get("kind", ""), "default": block_lines[0]["default"]}
+    exp = EXPECTED.get((ev["trace"], offset)) or []
+    if exp:
+        # C08: the rule the specification selects for the request
+        rules = {r["id"]: r for e in block_lines if e["ev"] == "op" for r in e["rules"]}
+        r = rules.get(exp[0]["rule"])
+        f["exp_setting"] = exp[0]["setting"]
+        f["exp_rule_has_params"] = bool(r and any(rt["params"] for rt in r["routes"]))
+        f["exp_rule_backtracks"] = bool(r and r["bt"])
     return f
+
+
+def design_run_c08(work, verdict):
+    with ThreadPoolExecutor(max_workers=3) as ex:
+        main = ex.submit(tlc_expect_ok, work, "EncodingMC", "EncodingMC.cfg", workers=4, timeout=900)
+        muts = {m: ex.submit(tlc_expect_violation, work, "EncodingMC", "EncodingMC_%s.cfg" % m,
+                             "SpellingIndependent", workers=2, timeout=600)
+                for m in ("case_sensitive", "raw_lookup")}
+        r = main.result()
+        refuted = {m: f.result().violated for m, f in muts.items()}
+    verdict.coverage["states"] = r.distinct
+    verdict.coverage["transitions"] = r.generated
+    verdict.coverage["design_run"] = {
+        "module": "EncodingMC", "distinct_states": r.distinct, "generated": r.generated,
+        "invariants": ["SpellingIndependent", "NormIdempotent", "NormPreservesDecoded", "AlwaysWellFormed",
+                       "OffRejects"],
+        "negative_controls_refuted": refuted, "wall_s": round(r.wall, 1),
+    }
 
 
 def run_prop(prop, tier, seed, replay):
     verdict = Verdict(prop, tier, seed)
     work = Work(prop)
+    module = TRACE_MODULE.get(prop, "RuleIndexTrace")
+    import functools
+    judge_m = functools.partial(_judge, module=module)
+    return _run_prop(prop, tier, seed, replay, verdict, work, judge_m,
+                     design_run_c08 if prop == "C08" else design_run)
+
+
+def _run_prop(prop, tier, seed, replay, verdict, work, judge, design_run):
     try:
         binary = build_driver()
         if replay:
@@ -162,7 +211,7 @@ def run_prop(prop, tier, seed, replay):
                 verdict.violation(path, "%s at event %d of the trace (%d events rejected): %s" % (
                     why, off, len(unknown), json.dumps(blk[off].get("req") or {"op": blk[off].get("kind")})))
 
-        selftest = binding_selftest(work, lines)
+        selftest = binding_selftest(work, lines, judge)
 
         probes = [ev for ev in lines if ev["ev"] == "probe"]
         distinct = len({(ev["trace"], json.dumps(ev["req"], sort_keys=True)) for ev in probes})
@@ -215,24 +264,25 @@ def sample(lines):
     return out
 
 
-def binding_selftest(work, lines):
-    """Corrupts recorded lookups / operation results; TLC must reject exactly those."""
+def binding_selftest(work, lines, judge):
+    """Corrupts recorded lookups; TLC must reject exactly those lines."""
     first = split_chunks(lines, 3000)[0]
     mut = copy.deepcopy(first)
-    expect = 0
-    for ev in mut:
-        if ev["ev"] == "probe" and ev["got"] not in ("norule",) and expect < 40:
+    corrupted = set()
+    for i, ev in enumerate(mut):
+        if ev["ev"] == "probe" and ev["got"] not in ("norule",) and len(corrupted) < 40:
             ev["got"] = "no-such-rule"
-            expect += 1
-    if expect == 0:
+            ev["positive"], ev["status"] = True, 200
+            corrupted.add(i + 1)
+    if not corrupted:
         raise Infra("binding self-test: nothing to corrupt")
     tf = work.path("selftest.ndjson")
     write_ndjson(tf, mut)
     v = judge(work, tf, "_self")
-    got = sum(1 for b in v["bad"] if b["why"] == "lookup-differs")
-    if got < expect:
-        raise Infra("binding self-test failed: %d corrupted lookups, %d rejected" % (expect, got))
-    return {"corrupted": expect, "rejected": got}
+    got = {b["line"] for b in v["bad"]} & corrupted
+    if got != corrupted:
+        raise Infra("binding self-test failed: %d corrupted lookups, %d rejected" % (len(corrupted), len(got)))
+    return {"corrupted": len(corrupted), "rejected": len(got)}
 
 
 def c02(tier, seed, replay):
@@ -245,3 +295,7 @@ def c03(tier, seed, replay):
 
 def c06(tier, seed, replay):
     return run_prop("C06", tier, seed, replay)
+
+
+def c08(tier, seed, replay):
+    return run_prop("C08", tier, seed, replay)
